@@ -1848,7 +1848,9 @@ func (x *dispRun) execTree(op string, f []string) bool {
 		}
 		e3 := spine.NewEntityLocal(l, model.EntityTypeTypeCEM, dispEnt([]uint{3}), 4*time.Second)
 		fl := e3.GetOrAddFeature(model.FeatureTypeTypeLoadControl, model.RoleTypeServer)
-		fl.AddFunctionType(model.FunctionTypeLoadControlLimitListData, true, true)
+		// (a function that is only written in full: the feature starts without data, and what a partial write does to
+		// an empty limit list is the update engine's business, C02 / C04)
+		fl.AddFunctionType(model.FunctionTypeLoadControlNodeData, true, true)
 		x.ent3 = e3
 		run = func() { l.AddEntity(e3); x.ent3On = true }
 		line = func() string { return fmt.Sprintf("addent %d %s", id, dispLFToken(fl)) }
@@ -2673,6 +2675,10 @@ func (g *dispGen) writeAs(p int, client, server string) string {
 func (g *dispGen) fitting(server string) (clients []string, typ model.FeatureTypeType) {
 	e, f := dispAddr(server)
 	lf := g.x.w.l.FeatureByAddress(h.FA(dispLocalDev, e, f))
+	if lf == nil {
+		// a feature of the detachable entity [3] while it is detached (its registry entries stay)
+		return []string{"1/1", "1/3"}, model.FeatureTypeTypeLoadControl
+	}
 	typ = lf.Type()
 	for _, rf := range g.x.w.rem {
 		if rf.role == model.RoleTypeClient && (rf.typ == typ || rf.typ == model.FeatureTypeTypeGeneric) {
@@ -2686,6 +2692,9 @@ func (g *dispGen) writableFns(server string, want bool) []int {
 	e, f := dispAddr(server)
 	lf := g.x.w.l.FeatureByAddress(h.FA(dispLocalDev, e, f))
 	var out []int
+	if lf == nil {
+		return nil
+	}
 	for fn, o := range lf.Operations() {
 		if o.Write() == want {
 			out = append(out, dispFnID[string(fn)])
